@@ -83,33 +83,14 @@ Definition check_rt_full (c : rt_case) : N :=
   if (10 <=? v) && negb (check_rt_model c) then V_MISMATCH else v.
 
 (* ---------------------------------------------------------------- quantising format *)
-Definition dense_of (v : tval) : option (list N) :=
-  match v with
-  | TVec x => Some x
-  | TSparse d p vs => Some (sparse_dense d p vs)
-  | _ => None
-  end.
-Definition vec_close (a b : list N) : bool :=
-  list_eqb (fun x y => N.eqb x y || (f32_is_zero x && f32_is_zero y)) a b.
-(* property-level equality of one field through the quantising format: exact, except that a
-   vector payload is compared numerically in dense form (zero quantisation error when TT is off) *)
-Definition q_equal (x y : tval) : bool :=
-  match dense_of x, dense_of y with
-  | Some a, Some b => vec_close a b
-  | _, _ => tval_eqb x y
-  end.
 Definition q_class (delta : bool) (d : str * option tval * option tval) : N :=   (* 0 ok 10 bytes 11 ids 2 other *)
   let '(f, x, y) := d in
   match x, y with
   | Some a, Some b =>
       if q_equal a b then 0
-      else match a with
-           | TScalar (SBytes _) => 10
-           | _ => match dense_of a with
-                  | Some v => if delta && looks_like_id_list v f then 11 else 2
-                  | None => 2
-                  end
-           end
+      else if is_bytes_scalar a then 10
+      else if id_path_lossy delta f a then 11
+      else 2
   | _, _ => 2
   end.
 Fixpoint q_compare (delta : bool) (a b : dump_t) : list N :=
